@@ -1790,15 +1790,16 @@ def create_pressure_controls(net, from_junctions, to_junctions, controlled_junct
                "controlled_junction": controlled_junctions, "controlled_p_bar": controlled_p_bar,
                "control_active": control_active, "loss_coefficient": loss_coefficient, "in_service": in_service,
                "type": type}
-    _set_multiple_entries(net, "press_control", index, **entries, **kwargs)
-
-    controlled_elsewhere = (controlled_junctions != from_junctions) & (controlled_junctions != to_junctions)
+    controlled_elsewhere = (np.asarray(controlled_junctions) != np.asarray(from_junctions)) & \
+                           (np.asarray(controlled_junctions) != np.asarray(to_junctions))
     if np.any(controlled_elsewhere):
-        controllers_warn = index[controlled_elsewhere]
+        controllers_warn = np.asarray(index)[controlled_elsewhere]
         logger.warning("The pressure controllers %s control the pressure at junctions that they are"
                        " not connected to. Please note that this can lead to errors in the pipeflow"
                        " calculation that will not be displayed properly. Make sure that your grid "
                        "configuration is valid." % controllers_warn)
+
+    _set_multiple_entries(net, "press_control", index, **entries, **kwargs)
 
     return index
 
